@@ -1,4 +1,4 @@
-import PewProofs.SyncClock
+import PewProofs.SyncText
 
 /-! # C08 — property theorems (statements only depend on `PewModel.Sync`) -/
 namespace Pew.Sync
@@ -578,5 +578,169 @@ example : ((render exUniform none).map (fun rd =>
   decide +kernel
 /-- the acquisition `exSerp` itself (7 ms gap, 25 ms lead-in) is not sampled at a constant interval -/
 example : (render exSerp none).map (fun rd => exSerp.interval rd.times) = some none := by decide +kernel
+
+/-! ## squeeze: removal of empty rows and columns -/
+
+/-- **`squeeze`, mechanism = specification.**  The code removes the rows without data, recomputes the mask on what is
+left and removes the columns without data; the result is the sub-image on the rows and columns that hold data in the
+*whole* image (`keptRows`, `keptCols`, both strictly increasing: nothing is reordered), where a pixel holds data iff
+its sample is a number in at least one element. -/
+theorem squeeze_spec (isnan : Nat → Bool) (w : Nat) (img : List (List (Option Nat))) :
+    squeezeImg isnan w img = (squeezeSpec isnan w img, (keptCols isnan w img).length) ∧
+      (keptRows isnan img).Pairwise (· < ·) ∧ (keptCols isnan w img).Pairwise (· < ·) :=
+  ⟨squeezeImg_eq_spec isnan w img, range_filter_sorted _ _, range_filter_sorted _ _⟩
+
+/-- **`squeeze` loses no data.**  A pixel `(r, c)` of the image whose sample `k` is a number in some element is found
+in the squeezed image, at the rank of `r` among the rows that hold data and the rank of `c` among such columns. -/
+theorem squeeze_keeps_data (isnan : Nat → Bool) (w : Nat) (img : List (List (Option Nat))) (r c k : Nat)
+    (row : List (Option Nat)) (hr : img[r]? = some row) (hc : c < w) (hk : row[c]? = some (some k))
+    (hn : isnan k = false) :
+    ∃ (i j : Nat), (keptRows isnan img)[i]? = some r ∧ (keptCols isnan w img)[j]? = some c ∧
+      ((squeezeImg isnan w img).1[i]?.bind (fun (row : List (Option Nat)) => row[j]?)) = some (some k) := by
+  rw [squeezeImg_eq_spec]
+  exact squeezeSpec_keeps isnan w img r c k row hr hc hk hn
+
+/-- an image of 3 × 3 whose middle row was visited (samples 0, 1, 2) and whose samples are NaN in every element
+but the last: nothing but the never-visited rows and column is removed -/
+example : squeezeImg (allNan [fun _ => true, fun _ => true, fun _ => false]) 3
+    [[none, none, none], [some 0, some 1, none], [none, none, none]] = ([[some 0, some 1]], 2) := by decide
+/-- NaN in every element: the visited row cannot be told from an unvisited one and goes -/
+example : squeezeImg (allNan [fun _ => true, fun k => k == 0]) 2 [[some 0, none], [some 1, some 2]]
+    = ([[some 1, some 2]], 2) := by decide
+
+/-- **C08 with `squeeze=True`, element by element.**  `masks` holds one NaN mask per element of the signal
+(`allNan masks k`: sample `k` is NaN in every element, the only thing the code's mask reads).  For every rendered
+acquisition in the domain of the ground truth the squeezed result is `squeezeSpec` of the ground-truth image, and every
+ground-truth pixel whose sample is a number in at least one element — first, middle or last — is in the result, at
+the rank of its row and column among those that hold data: a line that dropped out in some elements is still there. -/
+theorem sync_render_squeeze_keeps (a : Acq) (sel : Option (List Int)) (masks : List (Nat → Bool)) (rd : Rendered)
+    (hyp : truthHyp a sel = true) (hr : render a sel = some rd) :
+    ∃ (r : Result) (h w : Nat), sync rd.rows sel rd.times rd.delay (allNan masks) true = .ok r ∧
+      r.pixels = squeezeSpec (allNan masks) w (truthImage a sel h w) ∧
+      ∀ e ∈ truthCells a sel, (∃ m ∈ masks, m e.2.2 = false) →
+        ∃ (i j : Nat), (keptRows (allNan masks) (truthImage a sel h w))[i]? = some e.1.toNat ∧
+          (keptCols (allNan masks) w (truthImage a sel h w))[j]? = some e.2.1.toNat ∧
+          (r.pixels[i]?.bind (fun (row : List (Option Nat)) => row[j]?)) = some (some e.2.2) := by
+  obtain ⟨r, h, w, hok, _, _, hb, hpix, _, _⟩ := sync_render_squeeze a sel (allNan masks) rd hyp hr
+  obtain ⟨p0, H⟩ := truthHyp_spec a sel hyp
+  rw [squeezeImg_eq_spec] at hpix
+  refine ⟨r, h, w, hok, hpix, ?_⟩
+  intro e he ⟨m, hm, hmk⟩
+  obtain ⟨b1, b2, b3, b4⟩ := hb e he
+  obtain ⟨row, hrow, hcell⟩ := truthImage_at a sel h w H.nodup e he b1 b2 b3 b4
+  have hn : allNan masks e.2.2 = false := by
+    unfold allNan
+    cases hall : masks.all (fun m => m e.2.2) with
+    | false => rfl
+    | true => rw [List.all_eq_true.mp hall m hm] at hmk; cases hmk
+  rw [hpix]
+  exact squeezeSpec_keeps (allNan masks) w _ e.1.toNat e.2.1.toNat e.2.2 row hrow (by omega) hcell hn
+
+/-! ## the log as text -/
+
+/-- **Calendar.**  Walking the years and months from 1970-01-01 (`civilOfDay`, the specification of what the
+instrument prints) and numpy's closed-form day count (`daysOfCivil`) are inverse for every day number; the date has a
+month 1..12 and a day 1..31. -/
+theorem calendar_roundtrip (n : Nat) :
+    daysOfCivil (civilOfDay n) = n ∧ 1970 ≤ (civilOfDay n).y ∧ 1 ≤ (civilOfDay n).m ∧ (civilOfDay n).m ≤ 12 ∧
+      1 ≤ (civilOfDay n).d ∧ (civilOfDay n).d ≤ 31 :=
+  ⟨daysOfCivil_civilOfDay n, civilOfDay_ranges n⟩
+
+example : civilOfDay 19782 = ⟨2024, 2, 29⟩ ∧ civilOfDay 19783 = ⟨2024, 3, 1⟩ := by decide +kernel
+example : civilOfDay 20088 = ⟨2024, 12, 31⟩ ∧ civilOfDay 20089 = ⟨2025, 1, 1⟩ := by decide +kernel
+
+/-- **Time stamps.**  Every instant from 1970-01-01 to the end of the year 9999 is written as
+`YYYY-MM-DD HH:MM:SS.mmm` and read back exactly — date included: the stamps one millisecond before and at midnight,
+at a month's or a year's end, on the leap day differ by exactly the time that passed. -/
+theorem stamp_roundtrip (T : Nat) (h : T < 253402300800000) : parseStamp (fmtStamp T) = some T :=
+  stamp_roundtrip_core T h
+
+example : String.ofList (fmtStamp 1721260799999) = "2024-07-17 23:59:59.999" ∧
+    String.ofList (fmtStamp 1721260800000) = "2024-07-18 00:00:00.000" := by decide +kernel
+
+/-- four-decimal stage coordinates of either sign are written and read back exactly -/
+theorem coordinate_roundtrip (u : Int) : parseFixed4 (fmtFixed4 u) = some u := parseFixed4_fmtFixed4 u
+
+example : String.ofList (fmtFixed4 (-85677972)) = "-8567.7972" ∧ String.ofList (fmtFixed4 5) = "0.0005" := by
+  decide +kernel
+
+/-- **One line of the log.**  The line written for a row (time stamp from `base`, the sequence number or a blank,
+coordinates, laser state, spot size string, and any comma-free content in the columns that are not read) is read
+back by the reader's column selection as that row at its absolute time.  Hypotheses: the instant lies between 1970
+and the year 10000, the sequence number is blank (-1) or ≥ 0, and the spot size string has no comma and at most the
+16 characters the reader's field keeps. -/
+theorem line_roundtrip (base : Int) (r : Row) (e : Extras) (h0 : 0 ≤ base + r.time)
+    (h1 : base + r.time < 253402300800000) (hs : r.seq = -1 ∨ 0 ≤ r.seq) (hl : r.spot.toList.length ≤ 16)
+    (hc : ∀ c ∈ r.spot.toList, c ≠ ',') (he : e.clean) :
+    parseLine (fmtLine base r e) = some { r with time := base + r.time } :=
+  parseLine_fmtLine base r e h0 h1 hs hl hc he
+
+def exTextRow : Row := { time := 3877, seq := -1, x := 85677972, y := -348240754, on := true, spot := "40 x 40" }
+example : String.ofList (fmtLine 1721221978112 exTextRow (extrasOf false exTextRow))
+    = "2024-07-17 13:13:01.989,,,,,8567.7972,-34824.0754,,,,On,200,,40 x 40" := by decide +kernel
+example : (parseLine (fmtLine 1721221978112 exTextRow (extrasOf false exTextRow))
+    == some { exTextRow with time := 1721221981989 }) = true := by decide +kernel
+
+/-- **The whole log**: `render → parse = id` up to the absolute time -/
+theorem log_roundtrip (base : Int) (l : List (Row × Extras))
+    (h : ∀ re ∈ l, 0 ≤ base + re.1.time ∧ base + re.1.time < 253402300800000 ∧ (re.1.seq = -1 ∨ 0 ≤ re.1.seq) ∧
+      re.1.spot.toList.length ≤ 16 ∧ (∀ c ∈ re.1.spot.toList, c ≠ ',') ∧ re.2.clean) :
+    parseLog (renderLog base l) = some ((l.map (·.1)).map (shiftRow base)) :=
+  parseLog_renderLog base l h
+
+/-- **The date does not matter.**  Moving every row of the log by the same amount of time changes nothing: only
+differences to the first firing enter (`laser time from the first firing`). -/
+theorem sync_date_invariant (b : Int) (rows : List Row) (sel : Option (List Int)) (ts : List Rat) (delay : Rat)
+    (isnan : Nat → Bool) (squeeze : Bool) :
+    sync (rows.map (shiftRow b)) sel ts delay isnan squeeze = sync rows sel ts delay isnan squeeze :=
+  sync_shift b rows sel ts delay isnan squeeze
+
+/-- the unread columns as the correspondence check fills them (`withExtras`, like the instrument) are comma-free
+and leave the rows alone, so `sync_text_model` and `sync_render_text` apply to the text the check writes -/
+theorem instrument_text (b : Bool) (rows : List Row) :
+    (withExtras b rows).map (·.1) = rows ∧ ∀ re ∈ withExtras b rows, re.2.clean :=
+  ⟨withExtras_fst b rows, withExtras_clean b rows⟩
+
+/-- **The model run on the text is the model run on the rows**: for rows within `textHyp`, reading the written
+lines and synchronising (`syncText`, what the driver evaluates) is `syncClock` on the rows. -/
+theorem sync_text_model (base : Int) (rows : List Row) (b : Bool) (h : textHyp base rows = true)
+    (sel : Option (List Int)) (shape : List Nat) (clk : Clock) (delay : Rat) (isnan : Nat → Bool) (squeeze : Bool) :
+    syncText (renderLog base (withExtras b rows)) sel shape clk delay isnan squeeze
+      = syncClock rows sel shape clk delay isnan squeeze :=
+  syncText_withExtras base rows b h sel shape clk delay isnan squeeze
+
+/-- **C08 from the text of the log.**  A rendered acquisition in the domain of the ground truth, written as text
+with laser clock 0 at any instant `base` ≥ 1 ms after 1970-01-01 that keeps the log before the year 10000 — so the
+run may cross midnight, a month's or year's end, the leap day, or last longer than a day —, any comma-free content in
+the unread columns, spot size strings of at most 16 characters: the lines are read back, and their synchronisation
+is the ground truth, exactly as in `sync_render`. -/
+theorem sync_render_text (a : Acq) (sel : Option (List Int)) (isnan : Nat → Bool) (rd : Rendered)
+    (hyp : truthHyp a sel = true) (hr : render a sel = some rd) (base : Int) (l : List (Row × Extras))
+    (hl : l.map (·.1) = rd.rows) (hex : ∀ re ∈ l, re.2.clean) (hb0 : 1 ≤ base)
+    (hb1 : ∀ r ∈ rd.rows, base + r.time < 253402300800000) (hspot : ∀ p ∈ a.patterns, p.spotL.length ≤ 16) :
+    ∃ rows', parseLog (renderLog base l) = some rows' ∧
+      ∃ r, sync rows' sel rd.times rd.delay isnan false = .ok r ∧
+        r.origin = truthOrigin a sel ∧
+        (∃ p0, (selectedPatterns a sel).head? = some p0 ∧ r.spot = [(p0.sxu : Rat) / 10000, (p0.syu : Rat) / 10000]) ∧
+        r.pixels = truthImage a sel r.height r.width ∧
+        ∀ e ∈ truthCells a sel, 0 ≤ e.1 ∧ e.1 < (r.height : Int) ∧ 0 ≤ e.2.1 ∧ e.2.1 < (r.width : Int) := by
+  obtain ⟨p0, H⟩ := truthHyp_spec a sel hyp
+  obtain ⟨_, _, _, _, hrd⟩ := render_some a sel rd hr
+  have hrows : rd.rows = (emitAll a).rows := by rw [hrd]
+  have ht := rendered_textHyp a base H.seq0 hspot hb0 (by rw [← hrows]; exact hb1)
+  rw [← hrows] at ht
+  have hs := textHyp_spec base rd.rows ht
+  refine ⟨rd.rows.map (shiftRow base), ?_, ?_⟩
+  · rw [parseLog_renderLog, hl]
+    intro re hre
+    have hmem : re.1 ∈ rd.rows := by rw [← hl]; exact List.mem_map.mpr ⟨re, hre, rfl⟩
+    obtain ⟨a1, a2, a3, a4, a5⟩ := hs re.1 hmem
+    exact ⟨a1, a2, a3, a4, a5, hex re hre⟩
+  · rw [sync_shift]
+    exact sync_render a sel isnan rd hyp hr
+
+/-- the serpentine example written with its first row one second before midnight of 31 December 2024: it is in the
+domain, its lines are read back, and the chain from the text gives the ground truth -/
+example : textHyp 1735689599000 ((render exSerp none).map (·.rows)).get! = true := by decide +kernel
 
 end Pew.Sync
